@@ -181,6 +181,18 @@ def run(chk, op=OP):
     decorate(behs, rng)
     replay(chk, behs)
     real_stage(chk, behs, rng, 400 if chk.quick else 4000)
+    if op == "query":
+        # lists of objects, abstract types and merged sub-selections: GqlExec documents on the real deferring runtimes
+        from checks import c04
+        rich = c04.rich_behaviours(chk)
+        rng.shuffle(rich)
+        rich = rich[:3000 if chk.quick else 40000]
+        chk.count("GqlExec documents on real asyncio / thread-pool runtimes", len(rich))
+        parts = par.chunks(rich, par.NPROC * 2)
+        for out, n in par.pmap(c04.deferred_shards, [(p_, chk.seed + i) for i, p_ in enumerate(parts)]):
+            chk.traces += n
+            for k, (what, wit) in out.items():
+                chk.diverge(k, wit, what)
     b = behs[len(behs) // 2]
     chk.sample({"op": b["op"], "nodes": b["nodes"], "completion_order": [s["n"] for s in b["steps"]], "pending_after_each": [s["pending"] for s in b["steps"]]})
     chk.assumptions += ["fake pool / private event loop make completion order controllable; callbacks run synchronously inside complete()",
